@@ -344,6 +344,17 @@ func (g *vcgen) instr(ins ssa.Instruction) {
 			g.setVal(x, fmt.Sprintf("(%s %s)", fn, g.val(x.X)))
 		}
 	case *ssa.Index:
+		if b, ok := x.X.Type().Underlying().(*types.Basic); ok && b.Info()&types.IsString != 0 {
+			// s[i] on a string: the byte at i (strings are modelled as sequences of bytes)
+			s, i := g.val(x.X), g.val(x.Index)
+			if g.safety {
+				g.oblige("safe/index", origin(x.X), fmt.Sprintf("(and (<= 0 %s) (< %s (str.len %s)))", i, i, s), "string index in range")
+			} else {
+				g.assume(fmt.Sprintf("(and (<= 0 %s) (< %s (str.len %s)))", i, i, s))
+			}
+			g.setVal(x, fmt.Sprintf("(str.to_code (str.at %s %s))", s, i))
+			break
+		}
 		g.setValFresh(x)
 	case *ssa.Lookup:
 		g.lookup(x)
@@ -653,6 +664,20 @@ func (g *vcgen) convert(x *ssa.Convert) {
 		}
 	case fs == "String" && ts == "String":
 		g.setVal(x, v)
+	case fs == "String" && ts == "Slice" && !isByteSlice(to):
+		// []rune(s): one element per code point: between len/4 (rounded up) and len elements; contents abstract
+		r := g.newRef()
+		n := g.freshConst("runes", "Int")
+		g.assume(fmt.Sprintf("(and (<= 0 %s) (<= %s (str.len %s)) (<= (str.len %s) (* 4 %s)))", n, n, v, v, n))
+		g.setVal(x, fmt.Sprintf("(mk-slice %s 0 %s %s)", r, n, n))
+		g.havocVar(g.elemArr(to.Underlying().(*types.Slice).Elem()))
+		g.warn("[]rune(string) conversion: contents are abstract (the length is the number of code points: between len/4 and len)")
+	case fs == "Slice" && ts == "String" && !isByteSlice(from):
+		// string([]rune): each code point takes 1 to 4 bytes; contents abstract
+		res := g.freshConst("runestr", "String")
+		g.assume(fmt.Sprintf("(and (<= (slen %s) (str.len %s)) (<= (str.len %s) (* 4 (slen %s))))", v, res, res, v))
+		g.setVal(x, res)
+		g.warn("string([]rune) conversion: contents are abstract (the length is between the number of runes and four times that)")
 	case fs == "String" && ts == "Slice":
 		// []byte(s): fresh slice whose length is the string's length; contents tied by bytes.of
 		r := g.newRef()
@@ -676,6 +701,15 @@ func (g *vcgen) convert(x *ssa.Convert) {
 		g.setVal(x, fmt.Sprintf("(%s %s)", fn, v))
 		g.assumeType(g.vals[x], to)
 	}
+}
+
+func isByteSlice(t types.Type) bool {
+	st, ok := t.Underlying().(*types.Slice)
+	if !ok {
+		return false
+	}
+	b, ok := st.Elem().Underlying().(*types.Basic)
+	return ok && (b.Kind() == types.Uint8 || b.Kind() == types.Byte)
 }
 
 func (g *vcgen) typeAssert(x *ssa.TypeAssert) {
